@@ -1,1 +1,263 @@
-(* Proofs/Solve.v -- stub, to be filled in *)
+(* Proofs/Solve.v -- solve_basic (Model/Solve.v): soundness over any field, uniqueness of solutions
+   under a left inverse, completeness under the magnitude laws.  Package c01. *)
+From Coq Require Import List Arith Lia Bool Ring Field.
+From OV Require Import Base.Panic Base.Arith Model.Vector Model.Matrix Model.Solve
+  Proofs.Matrix Proofs.SolveBase Proofs.SolveBack Proofs.SolveGauss.
+Import ListNotations.
+Local Open Scope arith_scope.
+
+Section SolveProofs.
+Context {A : Arith}.
+Variable FL : FieldLaws A.
+Notation inv := (fl_inv A FL).
+Add Field AFieldS : (A_field FL).
+
+(* ---------- linear systems as functions: E i j entries, r right-hand side, y candidate ---------- *)
+Definition solf (n : nat) (E : nat -> nat -> A) (r : nat -> A) (y : nat -> A) : Prop :=
+  forall i, (i < n)%nat -> mvprod n E y i = r i.
+
+(* a row exchange does not change the solution set *)
+Lemma swap_sol n (E E1 : nat -> nat -> A) (r r1 y : nat -> A) p k :
+  (p < n)%nat -> (k < n)%nat ->
+  (forall i j, (i < n)%nat -> (j < n)%nat -> E1 i j = E (swp p k i) j) ->
+  (forall i, (i < n)%nat -> r1 i = r (swp p k i)) ->
+  solf n E1 r1 y -> solf n E r y.
+Proof.
+  intros Hp Hk HE Hr S i Hi.
+  assert (Hs : (swp p k i < n)%nat) by (apply swp_lt; auto).
+  specialize (S (swp p k i) Hs). rewrite Hr in S by auto. rewrite swp_invol in S.
+  rewrite <- S. unfold mvprod. apply sum_n_ext. intros j Hj.
+  rewrite HE by auto. now rewrite swp_invol.
+Qed.
+
+(* subtracting multiples of row k from the rows below it does not change the solution set *)
+Lemma elim_sol n (E1 E2 : nat -> nat -> A) (r1 r2 y c : nat -> A) k :
+  (k < n)%nat ->
+  (forall i j, (i < n)%nat -> (j < n)%nat -> E2 i j = if (k <? i)%nat then E1 i j - c i * E1 k j else E1 i j) ->
+  (forall i, (i < n)%nat -> r2 i = if (k <? i)%nat then r1 i - c i * r1 k else r1 i) ->
+  solf n E2 r2 y -> solf n E1 r1 y.
+Proof.
+  intros Hk HE Hr S.
+  assert (Sk : mvprod n E1 y k = r1 k).
+  { specialize (S k Hk). rewrite Hr in S by auto. rewrite Nat.ltb_irrefl in S.
+    rewrite <- S. unfold mvprod. apply sum_n_ext. intros j Hj. rewrite HE by auto.
+    now rewrite Nat.ltb_irrefl. }
+  intros i Hi. specialize (S i Hi). rewrite Hr in S by auto.
+  destruct (Nat.ltb_spec k i) as [Hlt|Hge].
+  - assert (E : mvprod n E2 y i = mvprod n E1 y i - c i * mvprod n E1 y k).
+    { unfold mvprod. rewrite <- (sum_n_scale FL), <- (sum_n_sub FL). apply sum_n_ext. intros j Hj.
+      rewrite HE by auto. destruct (Nat.ltb_spec k i); [|lia]. ring. }
+    rewrite E, Sk in S.
+    transitivity (mvprod n E1 y i - c i * r1 k + c i * r1 k); [ring|]. rewrite S. ring.
+  - rewrite <- S. unfold mvprod. apply sum_n_ext. intros j Hj. rewrite HE by auto.
+    destruct (Nat.ltb_spec k i); [lia|]. reflexivity.
+Qed.
+
+(* ---------- one step of the outer loop ---------- *)
+Definition gauss_body (k : nat) (s : matrix A * list A) : res (matrix A * list A) :=
+  let '(m, x) := s in
+  let* s := partial_pivot m x k in
+  for_ (k + 1) (rows (fst s)) (elim_body k) s.
+
+Lemma gauss_unfold (m : matrix A) (x : list A) :
+  gauss_with_pivot m x = (let* hi := usub (rows m) 1 in for_ 0 hi gauss_body (m, x)).
+Proof. reflexivity. Qed.
+
+(* the pivot step: some row p (0, or in k..n-1) is exchanged with row k in matrix and rhs *)
+Lemma pivot_step (m : matrix A) (x : list A) n k :
+  wf m -> rows m = n -> cols m = n -> length x = n -> (k < n)%nat ->
+  exists p m1 x1,
+    max_abs_in_column m k k = Ok p /\ (p = 0%nat \/ (k <= p < n)%nat) /\
+    wf m1 /\ rows m1 = n /\ cols m1 = n /\ length x1 = n /\
+    (forall i j, (i < n)%nat -> (j < n)%nat -> ent m1 i j = ent m (swp p k i) j) /\
+    (forall i, vnth x1 i = vnth x (swp p k i)) /\
+    gauss_body k (m, x) = for_ (k + 1) n (elim_body k) (m1, x1).
+Proof.
+  intros W Hr Hc Lx Hk.
+  destruct (max_abs_range m k k W) as (p & Ep & Rp); try lia.
+  assert (Hp : (p < n)%nat) by lia.
+  destruct (swap_rows_ok m p k W) as (m1 & E1 & W1 & R1 & C1 & S1); try lia.
+  destruct (vswap_ok x p k) as (x1 & E2 & L1 & S2); try lia.
+  exists p, m1, x1. rewrite Hr in *. rewrite Hc in *.
+  repeat split; auto; try congruence.
+  unfold gauss_body, partial_pivot. rewrite Ep. cbn [bind]. rewrite E1. cbn [bind].
+  rewrite E2. cbn [bind fst]. rewrite R1. reflexivity.
+Qed.
+
+(* ---------- the invariant of the outer loop (soundness) ---------- *)
+Section Sound.
+Variable n : nat.
+Variable E0 : nat -> nat -> A.    (* the original system *)
+Variable r0 : nat -> A.
+
+Definition belowz (k : nat) (m : matrix A) : Prop :=       (* rows k.. are zero in columns < k *)
+  forall i j, (k <= i)%nat -> (i < n)%nat -> (j < k)%nat -> ent m i j = zero.
+Definition lowz (k : nat) (m : matrix A) : Prop :=         (* columns < k are zero below the diagonal *)
+  forall i j, (j < k)%nat -> (j < i)%nat -> (i < n)%nat -> ent m i j = zero.
+
+(* Either the elimination is on track (Good), or -- after the pivot search fell back to its
+   initial index 0 at a step k >= 1 and row 0 was exchanged into the active part -- the entry
+   (0,0) is zero for the rest of the run and back substitution will divide by it (Bad). *)
+Definition ginv (k : nat) (s : matrix A * list A) : Prop :=
+  let '(m, x) := s in
+  wf m /\ rows m = n /\ cols m = n /\ length x = n /\ belowz k m /\
+  (((1 <= k)%nat /\ ent m 0 0 = zero) \/
+   (lowz k m /\ forall y, solf n (ent m) (vnth x) y -> solf n E0 r0 y)).
+
+Lemma ginv_step k s s' : (k + 1 < n)%nat -> ginv k s -> gauss_body k s = Ok s' -> ginv (S k) s'.
+Proof.
+  intros Hk. destruct s as [m x]. intros (W & Hr & Hc & Lx & BZ & St) E.
+  destruct (pivot_step m x n k W Hr Hc Lx) as (p & m1 & x1 & Ep & Rp & W1 & R1 & C1 & L1 & S1 & X1 & B); [lia|].
+  rewrite B in E.
+  destruct (eqb (ent m1 k k) zero) eqn:Ez.
+  { apply (eqb_zero_true FL) in Ez. rewrite (elim_rows_zero_pivot FL m1 x1 n k) in E by auto. discriminate. }
+  apply (eqb_zero_false FL) in Ez.
+  destruct (elim_rows_ok FL m1 x1 n k W1 R1 C1 L1) as (m2 & x2 & E2 & W2 & R2 & C2 & L2 & S2 & X2); [lia|auto|].
+  rewrite E2 in E. injection E as <-.
+  (* entries of the new matrix in columns < k+1 *)
+  assert (Zk : forall i, (k < i)%nat -> (i < n)%nat -> ent m2 i k = zero).
+  { intros i Hi1 Hi2. rewrite S2 by lia. unfold elim_ent.
+    destruct (Nat.ltb_spec k i); [|lia]. destruct (Nat.leb_spec k k); [|lia]. cbn [andb].
+    field. exact Ez. }
+  assert (Old : forall i j, (i < n)%nat -> (j < k)%nat -> ent m2 i j = ent m (swp p k i) j).
+  { intros i j Hi Hj. rewrite S2 by lia. unfold elim_ent.
+    destruct (Nat.leb_spec k j); [lia|]. rewrite andb_false_r. apply S1; lia. }
+  assert (BZ' : belowz (S k) m2).
+  { intros i j Hi1 Hi2 Hj. destruct (Nat.eq_dec j k) as [->|Hjk]; [apply Zk; lia|].
+    rewrite Old by lia. unfold swp.
+    destruct (Nat.eqb_spec i p); [apply BZ; lia|].
+    destruct (Nat.eqb_spec i k); [lia|]. apply BZ; lia. }
+  cbn [ginv]. repeat split; auto.
+  (* Good or Bad *)
+  assert (R00 : (1 <= k)%nat -> (p = 0%nat \/ ent m 0 0 = zero) -> ent m2 0 0 = zero).
+  { intros Hk1 Hc0. rewrite Old by lia. unfold swp.
+    destruct (Nat.eqb_spec 0 p) as [<-|Hp0]; [apply BZ; lia|].
+    destruct (Nat.eqb_spec 0 k); [lia|]. destruct Hc0; [lia|auto]. }
+  destruct St as [(Hk1 & Z00)|(LZ & Sol)].
+  { left. split; [lia|]. apply R00; auto. }
+  destruct Rp as [Hp0|Hpk].
+  { destruct (Nat.eq_dec k 0) as [Hk0|Hk0].
+    2:{ left. split; [lia|]. apply R00; auto; lia. }
+    (* p = 0 = k : the exchange is the identity; continue as in the regular case *)
+    right. subst p k. split.
+    - intros i j Hj Hji Hi. assert (j = 0%nat) as -> by lia. apply Zk; lia.
+    - intros y Sy. apply Sol.
+      apply (swap_sol n (ent m) (ent m1) (vnth x) (vnth x1) y 0 0); auto; try lia.
+      apply (elim_sol n (ent m1) (ent m2) (vnth x1) (vnth x2) y
+               (fun i => ent m1 i 0 * inv (ent m1 0 0)) 0); auto; try lia.
+      intros i j Hi Hj. rewrite S2 by auto. unfold elim_ent.
+      destruct (Nat.leb_spec 0 j); [|lia]. now rewrite andb_true_r. }
+  right. split.
+  - intros i j Hj Hji Hi. destruct (Nat.eq_dec j k) as [->|Hjk]; [apply Zk; lia|].
+    rewrite Old by lia. unfold swp.
+    destruct (Nat.eqb_spec i p); [apply LZ; lia|].
+    destruct (Nat.eqb_spec i k); [apply LZ; lia|]. apply LZ; lia.
+  - intros y Sy. apply Sol.
+    apply (swap_sol n (ent m) (ent m1) (vnth x) (vnth x1) y p k); auto; try lia.
+    apply (elim_sol n (ent m1) (ent m2) (vnth x1) (vnth x2) y
+             (fun i => ent m1 i k * inv (ent m1 k k)) k); auto; try lia.
+    + intros i j Hi Hj. rewrite S2 by auto. unfold elim_ent.
+      destruct (Nat.ltb_spec k i); cbn [andb]; auto.
+      destruct (Nat.leb_spec k j); auto.
+      (* j < k: row k of m1 is zero there *)
+      assert (Z : ent m1 k j = zero).
+      { rewrite S1 by lia. unfold swp. destruct (Nat.eqb_spec k p); [apply LZ; lia|].
+        rewrite Nat.eqb_refl. apply LZ; lia. }
+      rewrite Z. ring.
+Qed.
+
+End Sound.
+
+(* ---------- soundness of solve_basic ---------- *)
+Lemma solve_guards (M : matrix A) (b : list A) : rows M = cols M -> length b = rows M ->
+  solve_basic M b = (let* s := gauss_with_pivot M b in backsolve (fst s) (snd s)).
+Proof.
+  intros Hsq Lb. unfold solve_basic. rewrite <- Lb, Nat.eqb_refl. cbn [negb].
+  rewrite Lb, <- Hsq, Nat.eqb_refl. reflexivity.
+Qed.
+
+Lemma gauss_ginv (M : matrix A) (b : list A) s : wf M -> rows M = cols M -> length b = rows M ->
+  gauss_with_pivot M b = Ok s ->
+  (1 <= rows M)%nat /\ ginv (rows M) (ent M) (vnth b) (rows M - 1) s.
+Proof.
+  intros W Hsq Lb E. rewrite gauss_unfold in E. unfold usub in E.
+  destruct (Nat.leb_spec 1 (rows M)); [|discriminate]. cbn [bind] in E. split; auto.
+  apply (for_inv_partial (fun k s => ginv (rows M) (ent M) (vnth b) k s) 0 (rows M - 1) gauss_body (M, b) s);
+    [lia| | |exact E].
+  - cbn [ginv]. repeat split; auto.
+    + intros i j _ _ Hj. lia.
+    + right. split; auto. intros i j Hj. lia.
+  - intros k s0 s1 Hk I0 E1. apply (ginv_step (rows M) (ent M) (vnth b) k s0 s1); auto. lia.
+Qed.
+
+Lemma solve_basic_sound_lemma (M : matrix A) (b x : list A) :
+  wf M -> rows M = cols M -> length b = rows M -> solve_basic M b = Ok x ->
+  length x = rows M /\
+  forall i, (i < rows M)%nat -> mvprod (rows M) (ent M) (fun k => nth k x zero) i = nth i b zero.
+Proof.
+  intros W Hsq Lb E. rewrite solve_guards in E by auto.
+  apply bind_ok in E as ([m' x'] & Eg & Eb). cbn [fst snd] in Eb.
+  destruct (gauss_ginv M b (m', x') W Hsq Lb Eg) as (Hn & W' & R' & C' & L' & _ & St).
+  destruct (backsolve_spec FL m' (rows M) W' R' C' x' x L' Eb) as (Lx & D & U).
+  split; auto.
+  destruct St as [(_ & Z)|(LZ & Sol)].
+  - exfalso. apply (D 0%nat); auto.
+  - apply (Sol (vnth x)). intros i Hi. apply U; auto.
+    intros i' j' Hj Hi'. apply LZ; lia.
+Qed.
+
+(* ---------- uniqueness under a left inverse ---------- *)
+Definition left_inverse (n : nat) (N E : nat -> nat -> A) : Prop :=
+  forall i j, (i < n)%nat -> (j < n)%nat ->
+    sum_n n (fun k => N i k * E k j) = if (i =? j)%nat then one else zero.
+
+Lemma left_inverse_apply n (N E : nat -> nat -> A) (r x : nat -> A) :
+  left_inverse n N E -> solf n E r x ->
+  forall i, (i < n)%nat -> x i = sum_n n (fun k => N i k * r k).
+Proof.
+  intros LI S i Hi.
+  rewrite <- (sum_n_delta FL n i x Hi).
+  transitivity (sum_n n (fun j => sum_n n (fun k => N i k * (E k j * x j)))).
+  - apply sum_n_ext. intros j Hj. rewrite <- (LI i j Hi Hj).
+    rewrite <- (sum_n_scale_r FL). apply sum_n_ext. intros k Hk. ring.
+  - rewrite (sum_n_swap FL). apply sum_n_ext. intros k Hk.
+    rewrite (sum_n_scale FL). f_equal. apply (S k Hk).
+Qed.
+
+Lemma solutions_unique_fun n (N E : nat -> nat -> A) (r x y : nat -> A) :
+  left_inverse n N E -> solf n E r x -> solf n E r y -> forall i, (i < n)%nat -> x i = y i.
+Proof.
+  intros LI Sx Sy i Hi.
+  rewrite (left_inverse_apply n N E r x LI Sx i Hi).
+  now rewrite (left_inverse_apply n N E r y LI Sy i Hi).
+Qed.
+
+Lemma solutions_unique_lemma (M : matrix A) (b x y : list A) :
+  (exists N : nat -> nat -> A, left_inverse (rows M) N (ent M)) ->
+  length x = rows M -> length y = rows M ->
+  (forall i, (i < rows M)%nat -> mvprod (rows M) (ent M) (fun k => nth k x zero) i = nth i b zero) ->
+  (forall i, (i < rows M)%nat -> mvprod (rows M) (ent M) (fun k => nth k y zero) i = nth i b zero) ->
+  x = y.
+Proof.
+  intros (N & LI) Lx Ly Sx Sy.
+  apply (nth_ext x y zero zero); [congruence|].
+  intros i Hi. rewrite Lx in Hi.
+  apply (solutions_unique_fun (rows M) N (ent M) (fun i => nth i b zero)
+           (fun k => nth k x zero) (fun k => nth k y zero)); auto.
+Qed.
+
+(* ---------- agreement of the two solvers, given soundness of solve_lu (package c02 proves it) ---------- *)
+Lemma solvers_agree_from_lu_sound (M : matrix A) (b x y : list A) :
+  (solve_lu M b = Ok y -> length y = rows M /\
+     forall i, (i < rows M)%nat -> mvprod (rows M) (ent M) (fun k => nth k y zero) i = nth i b zero) ->
+  wf M -> rows M = cols M -> length b = rows M ->
+  (exists N : nat -> nat -> A, left_inverse (rows M) N (ent M)) ->
+  solve_basic M b = Ok x -> solve_lu M b = Ok y -> x = y.
+Proof.
+  intros LU W Hsq Lb LI Ex Ey.
+  destruct (solve_basic_sound_lemma M b x W Hsq Lb Ex) as (Lx & Sx).
+  destruct (LU Ey) as (Ly & Sy).
+  apply (solutions_unique_lemma M b x y LI Lx Ly Sx Sy).
+Qed.
+
+End SolveProofs.
